@@ -121,6 +121,7 @@ def gen_case(rng):
     case = {"fn": fn, "state": None if fn.startswith("DataArray") else [rng.random() < 0.5, rng.random() < 0.5]}
     if "data_frame" in fn:
         case["column"] = rng.choice(COLUMN_POOL)[0] if rng.random() < 0.6 else rng.choice(["0", "1", "1", "2", "-1"])
+        case["other_file"] = rng.random() < 0.15       # the frame offered lives in ANOTHER open file
         return case
     rank = rng.choice([1, 1, 2, 2, 3])
     case["rank"] = rank
@@ -138,6 +139,8 @@ def gen_case(rng):
         ents = [rng.choice(ENTRY_POOL)[0] for _ in range(n)]
     case["entries"] = ents
     case["container"] = rng.choice(CONTAINERS) if rng.random() < 0.7 else rng.choice(["list", "tuple", "ndarray", "duck-class"])
+    if not fn.startswith("DataArray"):
+        case["other_file"] = rng.random() < 0.15       # the array offered lives in ANOTHER open file
     return case
 
 
@@ -202,13 +205,15 @@ def model_op(case):
     if "column" in case:
         v = COLUMN_INDEX[case["column"]]()
         is_int = isinstance(v, int)
-        return ["link_run", case["fn"], [False, False, False, False], [], [is_int, int(v) if is_int else 0], 0, 2, case["state"]]
+        return ["link_run", case["fn"], [False, False, False, False], [], [is_int, int(v) if is_int else 0], 0, 2, case["state"],
+                bool(case.get("other_file"))]
     v, ents = _value(case)
     caps, probed = abstract_index(v)
     if isinstance(v, collections.abc.Iterator):
         probed = ents
     st = _list_storable(probed)
-    return ["link_run", case["fn"], caps, [_entry_abs(e)[:4] + [st] for e in probed], [False, 0], case["rank"], 0, case["state"]]
+    return ["link_run", case["fn"], caps, [_entry_abs(e)[:4] + [st] for e in probed], [False, 0], case["rank"], 0, case["state"],
+            bool(case.get("other_file"))]
 
 
 def applicable(case):
@@ -222,7 +227,8 @@ def applicable(case):
 
 
 class Scene:
-    """one file; every case gets a fresh array with the descriptor in the state the case asks for"""
+    """one file (and a second open file holding arrays / a frame of the same shapes, offered by the cases that say
+    `other_file`); every case gets a fresh array with the descriptor in the state the case asks for"""
 
     def __init__(self, path):
         self.path = path
@@ -233,13 +239,20 @@ class Scene:
                         3: self.b.create_data_array("t3", "t", data=np.arange(8.0).reshape(2, 2, 2))}
         self.old = self.b.create_data_array("old", "t", data=[5.0, 6.0])
         self.df = self.b.create_data_frame("df", "t", col_dict={"a": int, "s": str}, data=[(1, "u"), (2, "v")])
+        self.f2 = nixio.File.open(path + ".other.nix", nixio.FileMode.Overwrite)
+        b2 = self.f2.create_block("b", "t")
+        self.otargets = {1: b2.create_data_array("t1", "t", data=[1.0, 2.0, 3.0]),
+                         2: b2.create_data_array("t2", "t", data=np.arange(6.0).reshape(2, 3)),
+                         3: b2.create_data_array("t3", "t", data=np.arange(8.0).reshape(2, 2, 2))}
+        self.odf = b2.create_data_frame("df", "t", col_dict={"a": int, "s": str}, data=[(1, "u"), (2, "v")])
         self.n = 0
 
     def close(self):
-        try:
-            self.f.close()
-        except Exception:       # noqa
-            pass
+        for f in (self.f, self.f2):
+            try:
+                f.close()
+            except Exception:       # noqa
+                pass
 
     def _observe_dim(self, grp, old_id):
         """what the descriptor group holds, read with h5py"""
@@ -289,10 +302,11 @@ class Scene:
                 Base.link_data_array(dim, self.old, [-1])       # the base function: ticks / labels stay
                 old_id = dim.dimension_link.id
             if "data_array" in fn:
-                target = self.targets[rank]
+                target = (self.otargets if case.get("other_file") else self.targets)[rank]
                 call = lambda: dim.link_data_array(target, value)       # noqa
             else:
-                call = lambda: dim.link_data_frame(self.df, value)      # noqa
+                frame = self.odf if case.get("other_file") else self.df
+                call = lambda: dim.link_data_frame(frame, value)      # noqa
             dim_idx = 2
         h5arr = self.f._h5file["data/b/data_arrays/" + name]
         ndims0 = len(h5arr["dimensions"])
